@@ -44,6 +44,7 @@ class G(object):
         self.fw = False
         self.rlen = 1.0
         self.g92_used = False
+        self.last_end_silent = False
 
     # -- helpers --------------------------------------------------------------------------------------
     def emit(self, **op):
@@ -77,8 +78,10 @@ class G(object):
             w, h = r2(r.uniform(2, 25), 1), r2(r.uniform(2, 25), 1)
             d = {"type": "RectangularRegion", "id": rid, "x1": r2(cx - w, 1), "y1": r2(cy - h, 1),
                  "x2": r2(cx + w, 1), "y2": r2(cy + h, 1)}
-            if r.random() < 0.15:   # corners given in the other order
+            if r.random() < 0.15:   # corners given in the other order (one axis, the other, or both)
                 d["x1"], d["x2"] = d["x2"], d["x1"]
+            if r.random() < 0.15:
+                d["y1"], d["y2"] = d["y2"], d["y1"]
         else:
             d = {"type": "CircularRegion", "id": rid, "cx": cx, "cy": cy, "r": r2(r.uniform(2, 25), 1)}
         return d
@@ -436,6 +439,10 @@ class G(object):
     def at_switch(self):
         r = self.r
         custom = self.k.get("custom_at")
+        if custom == "none":
+            self.ops.append({"op": "line", "text": r.choice(["@ExcludeRegion disable", "@ExcludeRegion off",
+                                                              "@ExcludeRegion enable", "@Excl stop"])})
+            return
         redundant = r.random() < 0.15   # disable while disabled / enable while enabled
         want_disable = self.enabled ^ redundant
         if want_disable:
@@ -458,7 +465,8 @@ class G(object):
             self.enabled = not self.enabled if not redundant else self.enabled
             foreign = {None: ["@Excl stop", "@RegionsOff", "@Excl go", "@RegionsOn"],
                        "only": ["@ExcludeRegion disable", "@ExcludeRegion enable", "@ExcludeRegion off"],
-                       "both": ["@Excl stopping", "@Excl2 off"]}[custom if custom in ("only", "both") else None]
+                       "none": ["@ExcludeRegion disable", "@ExcludeRegion off", "@Excl stop", "@RegionsOff"],
+                       "both": ["@Excl stopping", "@Excl2 off"]}[custom if custom in ("only", "both", "none") else None]
             foreign += ["@Excl2 keep region 2 off limits", "@Excl2 part one done", "@Excl xgo", "@Excl please stop"]
             self.ops.append({"op": "line", "text": r.choice(foreign)})
             return
@@ -488,9 +496,11 @@ class G(object):
         """The configured @-actions change mid-run (renamed / removed commands must stop working)."""
         r = self.r
         from .worlds.printworld import DEFAULT_AT_ACTIONS
-        which = r.choice([None, "only", "both"])
+        which = r.choice([None, "only", "both", "none"])
         if which is None:
             acts = list(DEFAULT_AT_ACTIONS)
+        elif which == "none":
+            acts = []              # the user removed every action: no @-command may do anything
         elif which == "only":
             acts = list(CUSTOM_AT)
         else:
@@ -540,6 +550,8 @@ class G(object):
                 if self.regions and r.random() < 0.4:
                     px, py = self.point_in(r.choice(list(self.regions.values())))
                     t = "G1 X%.2f Y%.2f E1" % (px, py)
+                elif self.k.get("configured") and r.random() < 0.4:
+                    t = rand_code_line(r, r.choice(self.k["configured"]))
                 self.emit(op="upload_line", text=t + "\n")
         elif kind == "script_hook":
             self.emit(op="script_hook", name=r.choice(["beforePrintStarted", "afterPrintCancelled",
@@ -638,6 +650,7 @@ class G(object):
             self.move(aim="into", axes="XY")
             for _ in range(r.randrange(0, 3)):
                 self.misc("other")
+        self.last_end_silent = False
         if clean is None:
             clean = r.random() >= k.get("p_abort", 0.15)
         if clean:
@@ -648,7 +661,9 @@ class G(object):
             kinds = ["cancel", "cancel", "error", "fail", "error_only"]
             if k.get("silent_abort"):
                 kinds += ["silent", "silent"]
-            self.emit(op="abort", kind=r.choice(kinds))
+            kind_ = r.choice(kinds)
+            self.emit(op="abort", kind=kind_)
+            self.last_end_silent = (kind_ == "silent")
         self.active = False
         self.ep = False
         if k.get("clear_after"):
@@ -748,6 +763,8 @@ def knobs(rng, profile):
         w["mode"] = 2
     if rng.random() < 0.25:
         w["units"] = 1.5
+    if rng.random() < 0.12:
+        w["upload"] = 2          # benign concurrent traffic: a file is filtered offline while the job runs
     for key in ("other", "terminal", "clock", "logfail", "pause", "region_add", "region_grow"):
         if rng.random() < 0.25:
             w[key] = 0
@@ -774,7 +791,25 @@ def gen_print_schedule(rng, profile, k=None, return_gen=False, regions=None, nid
         settings["mayShrinkRegionsWhilePrinting"] = True
     cfg = {"log": k["log"], "g90e": k["g90e"], "keep_zeros": k["keep_zeros"], "settings": settings,
            "profile": profile, "numstyle": k["numstyle"], "compact": k["compact"]}
+    dirty = bool(k.get("dirty_first")) and k["prints"] >= 2
+    if dirty:
+        g.emit(op="c02_judge", on=False)
     for pi in range(k["prints"]):
+        if dirty:
+            last = (pi == k["prints"] - 1)
+            k["clear_path"] = last
+            if last:
+                if getattr(g, "last_end_silent", False) and not g.may_shrink:
+                    # regions could not be deleted while the plugin still believes a job is active: make sure it
+                    # knows the earlier job is over (with shrinking allowed the restart stays without end event)
+                    g.emit(op="abort", kind="cancel")
+                    g.last_end_silent = False
+                # the judged job: drop what the earlier, unjudged jobs left of the regions it cannot avoid
+                for rid in sorted(g.regions):
+                    if rng.random() < 0.5:
+                        g.emit(op="api", cmd="deleteExcludeRegion", data={"id": rid})
+                        del g.regions[rid]
+                g.emit(op="c02_judge", on=True)
         if pi == 0 or rng.random() < 0.3:
             for _ in range(k["nregions"] if pi == 0 else rng.choice([0, 1])):
                 g.region_add() if not k.get("clear_path") else g.region_add_clear()
